@@ -87,9 +87,17 @@ def check_ckd(case, ctx):
     else:
         node = Pub(key=rp.sec(), **kw) if case["form"] != "parsed" else \
             Pub.parse(rp.xpub(versions(p["testnet"])[1]), testnet=p["testnet"])
-    stub = patch.ScriptedPRF({0: out})
+    stub = patch.ScriptedPRF({j: out for j in range(6)})
     with patch.prf(stub):
         st_, child = call(node.ckd, i)
+        if st_ == "exc" and not valid:
+            # the same invalid request again on the same parent, through each entry point
+            for again, f in (("ckd", lambda: node.ckd(i)), ("derive_path", lambda: node.derive_path([i])),
+                             ("generate_children", lambda: node.generate_children((i, i + 1)))):
+                st2, c2 = call(f)
+                if st2 == "ok" and c2 != []:
+                    raise Violation("C18/%s-ckd/invalid-child-returned-on-retry" % side, "the invalid child %d (IL=%#x) was "
+                                    "refused once and then returned by a second %s on the same parent" % (i, il, again))
     what = "%s ckd(%d), parent k=%#x, PRF output IL=%#x (%s)" % (side, i, p["k"], il, case["kind"])
     if not stub.calls:
         ctx.count("prf-substitution-not-effective: not judged")
@@ -189,9 +197,14 @@ def check_bip85(case, ctx):
     case = dict(case, c=S.case_salt(case))       # unique entropy-PRF input per case
     master = Prv(key=case["k"].to_bytes(32, "big"), chain_code=case["c"])
     b = B85(master_node=master)
-    stub = patch.ScriptedPRF({0: out})
+    stub = patch.ScriptedPRF({j: out for j in range(6)})
     with patch.prf(stub, modules=("btc_hd_wallet.bip85",)):
         st_, val = call(getattr(b, case["app"]), case["index"])
+        if st_ == "exc" and (sec == 0 or sec >= N):
+            st2, v2 = call(getattr(b, case["app"]), case["index"])      # asked again on the same object
+            if st2 == "ok":
+                raise Violation("C18/bip85/invalid-secret-emitted-on-retry[%s]" % case["app"], "bip85.%s(%d) refused the "
+                                "invalid secret %#x once and returned %r when asked again" % (case["app"], case["index"], sec, v2))
     what = "bip85.%s(%d) with chosen entropy whose secret half is %#x" % (case["app"], case["index"], sec)
     if not stub.calls:
         ctx.count("prf-substitution-not-effective: not judged")
